@@ -14,7 +14,7 @@ Only property theorems live here (each is audited with `#print axioms`); the mod
 `specTransform`) is `RuschmSpec/Macro.lean`, helper lemmas are in
 `RuschmProofs/Macro{Lemmas,Match,Subst}.lean`.
 -/
-import RuschmProofs.MacroSubst
+import RuschmProofs.MacroGroups
 
 namespace Ruschm.C04
 open Ruschm Ruschm.Macro Ruschm.Macro.Ex
@@ -385,6 +385,25 @@ example : (properElems (lst [lst [sy "x", num 1], lst [sy "y", num 2]])).bind
       (fun ds => (mapOpt (specMatch [] (plist [.ident "name", .ident "val"])) ds).bind combine) = none :=
   ⟨rfl, rfl, rfl⟩
 
+/-- what `combine` is: when the items `ds` all match `q`, with bindings `βs` (one per item), the
+run binds EACH variable of `q` to the SEQUENCE of its matches in `d₁ … dₙ`, in order -/
+theorem ellipsis_binds_sequences {lits q ds βs β}
+    (hm : mapOpt (specMatch lits q) ds = some βs) (hc : combine βs = some β) :
+    β.map Prod.fst = q.vars lits ∧
+    ∀ v ∈ q.vars lits, β.lookup v = some (βs.flatMap fun b => (b.lookup v).getD []) := by
+  obtain ⟨β1, rest, rfl, hk, hl⟩ := combine_lookup hc
+  cases ds with
+  | nil => simp [mapOpt] at hm
+  | cons d ds =>
+    obtain ⟨y, ys, hy, -, hys⟩ := mapOpt_cons_some.1 hm
+    cases hys
+    have := specMatch_keys hy
+    exact ⟨hk.trans this, fun v hv => hl v (this ▸ hv)⟩
+
+example : combine [[("a", [num 1]), ("b", [num 2])], [("a", [num 3]), ("b", [num 4])],
+    [("a", [num 5]), ("b", [num 6])]] = some [("a", [num 1, num 3, num 5]), ("b", [num 2, num 4, num 6])] :=
+  rfl
+
 /-! ## 3. The template is filled as the declarative instantiation says -/
 
 /-- For a supported rule and the bindings of a successful match of its pattern against `d`, with
@@ -419,6 +438,23 @@ example : (Tmpl.list [(.ident "a", true), (.ident "a", false)]).wf
       (Subst.keys [("a", num 1, [num 2, num 3])]) = true ∧
     subst 3 (Tmpl.list [(.ident "a", true), (.ident "a", false)]) [("a", num 1, [num 2, num 3])] none =
       some (lst [num 1, num 2, num 3, num 1]) := ⟨rfl, rfl⟩
+
+/-- "Repeated once per matched item" is unambiguous in the class: every pattern variable that an
+ellipsis sub-template of a supported rule mentions matched exactly `copies β u` items (the
+definition of `copies` — the least sequence length — is only a device to make `specInst` total
+outside the class). -/
+theorem copies_unambiguous {lits p d β u} (hs : Supported lits p = true)
+    (hm : specMatch lits p d = some β)
+    (hu : Tmpl.ellOk (p.vars lits) (p.ellGroups lits) u = true) :
+    ∀ v ∈ u.vars, ∀ ms, β.lookup v = some ms → ms.length = copies β u :=
+  copies_eq_length hs hm hu
+
+example : Tmpl.ellOk ["name", "val", "body"] [["name", "val"], ["body"]]
+      (.list [(.ident "name", false), (.ident "val", false)]) = true ∧
+    Tmpl.ellOk ["name", "val", "body"] [["name", "val"], ["body"]]
+      (.list [(.ident "name", false), (.ident "body", false)]) = false ∧
+    copies [("name", [sy "x", sy "y"]), ("val", [num 1, num 2]), ("body", [sy "x"])]
+      (.list [(.ident "name", false), (.ident "val", false)]) = 2 := ⟨rfl, rfl, rfl⟩
 
 /-- In the class `subst` does not run out of fuel: `d.size` units suffice after a match against
 `d` (the copy loop makes at most as many copies as `d` has items). -/
